@@ -133,6 +133,8 @@ pub struct Ctx {
     pub log_events: AtomicBool,
     /// async scenarios: number of `dispatch` operations issued so far
     pub async_dispatched: AtomicU64,
+    /// the system whose `setup` is to panic next (usize::MAX: none)
+    pub setup_panic_sid: AtomicUsize,
     /// a dispatch call (or the identification run) is in progress: typed systems emit `Enter`
     /// from `accessor()` only then (the builder calls `accessor()` too)
     pub dispatching: AtomicBool,
@@ -160,6 +162,7 @@ impl Ctx {
             created: Mutex::new(vec![false; nres]),
             log_events: AtomicBool::new(true),
             async_dispatched: AtomicU64::new(0),
+            setup_panic_sid: AtomicUsize::new(usize::MAX),
             dispatching: AtomicBool::new(false),
         })
     }
@@ -500,6 +503,9 @@ impl<'a> System<'a> for DynSys {
 
     fn setup(&mut self, world: &mut World) {
         self.acc.ctx.states[self.acc.sid].setup.fetch_add(1, Ordering::SeqCst);
+        if self.acc.ctx.setup_panic_sid.compare_exchange(self.acc.sid, usize::MAX, Ordering::SeqCst, Ordering::SeqCst).is_ok() {
+            panic!("{}", self.acc.ctx.payload(self.acc.sid, "setup"));
+        }
         <DynData as DynamicSystemData>::setup(&self.acc, world);
     }
 
@@ -645,6 +651,14 @@ impl<'c, T: HRes> CtlTouch for Write<'c, T> {
         old
     }
 }
+impl<X: CtlTouch> CtlTouch for Option<X> {
+    fn touch(&mut self, ctx: &Ctx, sid: usize) -> u64 {
+        match self {
+            Some(x) => x.touch(ctx, sid),
+            None => 0,
+        }
+    }
+}
 impl<A: CtlTouch, B: CtlTouch> CtlTouch for (A, B) {
     fn touch(&mut self, ctx: &Ctx, sid: usize) -> u64 {
         let a = self.0.touch(ctx, sid);
@@ -683,8 +697,63 @@ where
     type D<'c> = (Read<'c, <Sel<R> as Pick>::T>, Write<'c, <Sel<W> as Pick>::T>);
 }
 
+/// The optional forms (they declare the same access, and create nothing at setup).
+pub struct FOR<const R: u8>;
+impl<const R: u8> Fam for FOR<R>
+where
+    Sel<R>: Pick,
+{
+    type D<'c> = Option<Read<'c, <Sel<R> as Pick>::T>>;
+}
+pub struct FOW<const W: u8>;
+impl<const W: u8> Fam for FOW<W>
+where
+    Sel<W>: Pick,
+{
+    type D<'c> = Option<Write<'c, <Sel<W> as Pick>::T>>;
+}
+pub struct FORW<const R: u8, const W: u8>;
+impl<const R: u8, const W: u8> Fam for FORW<R, W>
+where
+    Sel<R>: Pick,
+    Sel<W>: Pick,
+{
+    type D<'c> = (Option<Read<'c, <Sel<R> as Pick>::T>>, Option<Write<'c, <Sel<W> as Pick>::T>>);
+}
+
 pub trait FamVisitor {
     fn visit<F: Fam>(self);
+}
+
+/// Like `pick_fam`, with the optional forms.
+pub fn pick_fam_opt<V: FamVisitor>(r: Option<u8>, w: Option<u8>, v: V) {
+    macro_rules! w_arm {
+        ($r:literal) => {
+            match w {
+                Some(0) => v.visit::<FORW<$r, 0>>(),
+                Some(1) => v.visit::<FORW<$r, 1>>(),
+                Some(2) => v.visit::<FORW<$r, 2>>(),
+                Some(3) => v.visit::<FORW<$r, 3>>(),
+                None => v.visit::<FOR<$r>>(),
+                _ => unreachable!("write type out of the static family"),
+            }
+        };
+    }
+    match r {
+        Some(0) => w_arm!(0),
+        Some(1) => w_arm!(1),
+        Some(2) => w_arm!(2),
+        Some(3) => w_arm!(3),
+        None => match w {
+            Some(0) => v.visit::<FOW<0>>(),
+            Some(1) => v.visit::<FOW<1>>(),
+            Some(2) => v.visit::<FOW<2>>(),
+            Some(3) => v.visit::<FOW<3>>(),
+            None => v.visit::<F0>(),
+            _ => unreachable!("write type out of the static family"),
+        },
+        _ => unreachable!("read type out of the static family"),
+    }
 }
 
 /// Select the family member for (read type, write type) and hand it to the visitor.
